@@ -12,7 +12,7 @@ import xyzpy.gen.cropping as cp
 from xyzpy.gen.combo_runner import combo_runner
 from xyzpy.utils import XYZError
 
-CONFORMANCE = ("fakefs", "random")
+CONFORMANCE = ("fakefs", "random", "minixr", "minipd")
 FUNCS = CROP_FUNCS
 
 
@@ -164,6 +164,60 @@ def body_partial(E, api, n, mode, b, kind, shuf, cu, f1, f2, f3, f4, f5, f6, bas
         return same_nested(full, ref) and not env.exists(crop_dir(env))
 
 
+def RSYM(**kw):
+    from ..env import Env
+
+    kw.setdefault("fs", "obj")
+    kw.setdefault("xr", True)
+    kw.setdefault("pd", True)
+    return Env("sym", **kw)
+
+
+def body_runner_route(E, kind, which, to_df, base):
+    """partial reap through a Runner (Dataset / DataFrame form), incl. bool and str results"""
+    from .xrkit import rows_of
+    from xyzpy.gen.farming import Runner
+
+    kind = concretize(kind, 0, 3)
+    which = concretize(which, 1, 2)      # the batch that IS finished
+    E2 = RSYM if E is SYM else E
+    pay = mkfn(base if kind < 3 else 0)
+
+    def fn(a):
+        return result_of(kind if kind != 1 else 0, pay(a=a))
+
+    with E2() as env:
+        r = Runner(fn, "x")
+        crop = r.Crop(name="t", parent_dir=env.parent, batchsize=2)
+        crop.sow_combos({"a": [10, 11, 12]}, verbosity=0)
+        cp.grow(which, crop=crop, verbosity=0)
+        fin = {1: [10, 11], 2: [12]}[which]
+        if cbool(to_df):
+            out = crop.reap_runner(r, allow_incomplete=True, to_df=True)
+            rows = rows_of(env, out)
+            if len(rows) != 3:
+                return False
+            for row in rows:
+                if row["a"] in fin:
+                    if row["x"] != fn(row["a"]):
+                        return False
+                elif not (row["x"] is None or is_nan(row["x"])):
+                    return False
+        else:
+            ds = crop.reap(allow_incomplete=True)
+            for a in (10, 11, 12):
+                if env.mode == "sym":
+                    got = ds._vars["x"].cells[(a,)]
+                else:
+                    got = ds["x"].sel(a=a).values.item()
+                if a in fin:
+                    if got != fn(a):
+                        return False
+                elif not (got is None or is_nan(got)):
+                    return False
+        return env.exists(crop_dir(env))          # default clean_up keeps the incomplete crop
+
+
 BODIES = {}
 _G = globals()
 _SIG = ("n:int mode:int b:int kind:int shuf:bool cu:int f1:bool f2:bool f3:bool f4:bool f5:bool f6:bool base:int "
@@ -184,6 +238,10 @@ CONDS = (
                   "not f4 and not f5 and not f6", _NOJ], fixed=dict(api=0), timeout=400,
                  bounds="N in 3..4, batch parameter 2..3, result kinds number / (scalar, list) tuple / bool / str / int ndarray, "
                         "clean_up None/False/True, all subsets")]
+    + [make_cond(_G, "runner_route", body_runner_route, "kind:int which:int to_df:bool base:int",
+                 ["(kind == 0 or kind == 2 or kind == 3) and 1 <= which <= 2", "not to_df or kind != 3"], timeout=300,
+                 bounds="partial reap of a Runner crop (2 batches, either one finished) to a Dataset and to a "
+                        "DataFrame, number / bool / str results: finished points exact, others missing, crop kept")]
     + [make_cond(_G, "shuffled", body_partial, _SIG,
                  ["n == 4 and 1 <= mode <= 2 and 2 <= b <= 3 and kind == 0 and shuf and cu == 0",
                   "not f4 and not f5 and not f6", _J], fixed=dict(api=0), timeout=600,
